@@ -210,6 +210,25 @@ theorem heap_remap_eq_rec_partial (c : HCfg) (h : Heap) (root : Obj) (n : Nat) (
     hfinal c h root = ⟨[], [], st'.reg, [], st'.out, v, st'.trace, none⟩ :=
   hfinal_eq_recRoot c h root n st' v hr
 
+/-- TOTAL version, raising visit callbacks included: for EVERY heap (sharing, cycles) and EVERY visit
+    callback - one that raises with `reraise_visit=True` too - the memoised recursion `recRootE` (which
+    reports "a visit raised" together with the state at that moment) returns within fuel `hbound h`, and
+    `remap`'s loop ends in agreement with it: same result, registry, rebuilt heap and enter / visit / exit
+    sequence when no visit raised; otherwise the loop stops with the visit's exception, and registry,
+    rebuilt heap and call sequence - up to and including the raising visit - are the recursion's. -/
+theorem heap_remap_eq_rec_raising (c : HCfg) (h : Heap) (id : Nat) (nd : Node) (hnd : h[id]? = some nd) :
+    ∃ r, recRootE c h (.ref id) (hbound h) = some r ∧ Agrees (hfinal c h (.ref id)) r := by
+  obtain ⟨r, hr⟩ := recRootE_returns c h id nd hnd
+  exact ⟨r, hr, hfinal_agrees_recRootE c h (.ref id) _ r hr⟩
+
+/-- non-vacuity: on `x = [7]; [x, x]` a visit that raises on ints (re-raised) stops `remap` at the very
+    first visit: root and `x` entered, 7 entered and visited - four events, nothing exited -/
+example : (match recRootE ⟨hprogVisit [⟨false, .isInt, .raise⟩], true⟩ exShared (.ref 0) (hbound exShared) with
+    | some (.raised st) => st.trace.length == 4 && (exitIds st.trace).isEmpty
+    | _ => false) = true ∧
+    (hfinal ⟨hprogVisit [⟨false, .isInt, .raise⟩], true⟩ exShared (.ref 0)).err = some .visitError := by
+  decide +kernel
+
 example : NoRaise copyH := by
   intro out p k v; simp [visitOut, copyH, hkeepVisit]
 
